@@ -52,7 +52,7 @@ class C07(Check):
         "buckets sharing the lattice and with clean restarts; same stream set on each backend; non-trivial = some "
         "stream of >=3 heartbeats produced both a merge and a non-merge; distinct = distinct (backend, op-kind sequence, stream shape)"
     )
-    expected_probes = ["merged", "not_merged", "zero_length_heartbeat", "end_ties_with_previous", "other_bucket_shares_end_instant", "restart_clean", "gap_exactly_pulsetime", "merged_event_longer_than_24h", "watcher_bucket_recreated", "insert_through_stale_handle"]
+    expected_probes = ["merged", "not_merged", "zero_length_heartbeat", "end_ties_with_previous", "other_bucket_shares_end_instant", "restart_clean", "gap_exactly_pulsetime", "merged_event_longer_than_24h", "watcher_bucket_recreated", "insert_through_stale_handle", "heartbeat_object_fed_to_two_buckets"]
     assumptions = ["one whole heartbeat (read newest, merge, replace_last|insert) is atomic, as aw-server guarantees by its lock", "heartbeat_reduce/heartbeat_merge themselves are the specification here (C08 is about them)"]
     real_components = Check.real_components + ["aw_transform.heartbeat_merge / heartbeat_reduce"]
 
@@ -70,13 +70,18 @@ class C07(Check):
         cfg = {"lat": lat, "alphabet": r.choice([1, 2, 2, 3]), "bulk_max": 6, "upsert_p": 0.2, "never_p": 0.1}
         steps = actors.creates(rs["meta"], ids + others, cfg)
         parties = []
+        mirror = nw >= 2 and r.random() < 0.25  # w1 is fed from w0's stream, with the same heartbeat objects
         for k, b in enumerate(ids):
+            if mirror and k == 1:
+                continue
             pulse = r.choice([0, 0.001, 0.5, 1, 1, 2.5, 5, 60])
             unit = None
             if r.random() < 0.12:
                 # an afk-style watcher: hours between heartbeats, merged events grow past 24 h
                 pulse, unit = r.choice([4 * 3600, 10 * 3600]), r.choice([3, 5]) * 3_600_000_000
             parties.append(actors.Watcher(rs["watch%d" % k], cfg, b, pulse, unit))
+            if mirror and k == 0:
+                parties[-1].mirror = ids[1]
         for k, b in enumerate(others):
             parties.append(actors.Importer(rs["imp%d" % k], cfg, b))
             parties.append(actors.Editor(rs["edit%d" % k], cfg, b))
